@@ -1133,6 +1133,13 @@ func init() {
 			return cell, true
 		}
 	}
+	// context.Background/TODO: an opaque context value (nil interface); code that
+	// only passes it along works, code that calls methods on it ends the path
+	for _, n := range []string{"context.Background", "context.TODO"} {
+		intrinsics[n] = func(in *Interp, c *frame, fn *ssa.Function, a []value) (value, bool) {
+			return iface{}, true
+		}
+	}
 	intrinsics["time.Now"] = func(in *Interp, c *frame, fn *ssa.Function, a []value) (value, bool) {
 		return zero(fn.Signature.Results().At(0).Type()), true
 	}
